@@ -230,7 +230,9 @@ fn gate(name: &str, v: &Verdict, out: &mut RunOut) -> bool {
             false
         }
         Verdict::Panic(msg, loc) => {
-            if panic_in_sut(loc) {
+            if msg.starts_with(STEP_CAP_MSG) {
+                out.fail(format!("livelock/{name}"), msg.clone());
+            } else if panic_in_sut(loc) {
                 let file = loc.rsplit('/').next().unwrap_or(loc).split(':').next().unwrap_or("").to_string();
                 out.fail(format!("panic/{name}/{file}"), format!("panic at {loc}: {msg}"));
             } else {
